@@ -24,6 +24,7 @@ size_t simfd_rx_pending(int task, int fd);
 /* FILE* over simulated content: chunks/faults come from the current op's fault script (FC_READ) */
 FILE *simfd_cookie_stream(const void *data, size_t len, int seekable, size_t startpos);
 FILE *simfd_cookie_stream_unreadable(void);
+extern int simfd_stream_transient; extern size_t simfd_last_cookie_pos;      /* FO_ETRANSIENT on a cookie stream: count so far, stream position at the last one */
 uint32_t simfd_gen_now(void);
 void simfd_set_select_eintr(int k);
 void simfd_set_base(int b);      /* 0: simulated descriptors are numbered from 0 (standard descriptors closed); anything else: from SIMFD_BASE */
